@@ -13,18 +13,20 @@ func init() { register("C16", checkC16) }
 
 func checkC16(c *Ctx) {
 	r := c.R
-	r.Explanation = "Decides structural necessary conditions of C16 on streams/{limitreadcloser,multireadercloser,teereadcloser}.go, on the SSA of every run. " +
-		"limitReadCloser.Read: (V1) the bytes returned by the source are charged against N unconditionally (not control-dependent on the error) and within the limit the source's count and error are passed through unchanged; " +
-		"(V2-pre) before reading, ErrStreamTooLarge is returned only under N<0 (or R==nil) and io.EOF only under closed; (V2-cap) the buffer handed to the source is capped at N+1; (V2-hide) on the over-limit branch the look-ahead byte is hidden (count-1); (V2-err) on the over-limit branch the returned error is ErrStreamTooLarge or a source error proven != io.EOF and != nil — never the source's io.EOF; " +
-		"(V2-close) every over-limit return has closed the source; (V4) l.R.Close() is only reached with closed known false, the flag is set on that path, and Close() closes the source unless already closed. " +
-		"MultiReaderCloser: (V3) in every method, a reader is removed from `readers` (re-slice, nil-ing, truncation) only after it was closed if it is an io.Closer (exception: http.ErrBodyReadAfterClose) and, in Read, only after its Read returned a non-nil error; a reader closed while consuming is removed before returning; every loop over the readers (WriteTo path, Close) handles each element before moving on, WriteTo copies each one; Close closes all remaining; " +
+	r.Explanation = "Decides structural necessary conditions of C16 on the three stream wrappers of package streams, on the SSA of every run. Each exported entry point (Read, Close, WriteTo) is analysed on an INLINED VIEW: the control-flow graph of the method with every statically resolved same-package callee (helper methods, functions, closures) spliced in at its call site and deferred calls replayed at the exits, so a step counts wherever it is written; facts are branch conditions on paths (dominance, per-predecessor splitting of joins, short-circuit values, per-return splitting of helper results), and the types/fields are found by ROLE (the type LimitReadCloser returns; its interface field with Read+Close, its integer budget field, its bool flag; the []io.Reader field of MultiReaderCloser; the reader / writer interface fields of TeeReadCloser), not by unexported names. " +
+		"LimitReadCloser's Read: (V1) on every path from the source read to a return the budget N was decreased by the source's count (or the count is known <= 0), and within the limit the source's count and error are passed through unchanged; " +
+		"(V2-pre) before reading, ErrStreamTooLarge is returned only under N<0 (or source==nil) and io.EOF only under the closed flag; (V2-cap) the buffer handed to the source is capped at N+1; (V2-hide) on the over-limit side the look-ahead byte is hidden (count-1); (V2-err) on the over-limit side the returned error is ErrStreamTooLarge or a source error proven != io.EOF and != nil — never the source's io.EOF; " +
+		"(V2-close) every over-limit return has closed the source; (V4) the source's Close() is only reached with the flag known false, the flag is set on that path, and Close() closes the source unless already closed. " +
+		"MultiReaderCloser: (V3) a reader leaves the list (re-slice, nil-ing, truncation) only after it was closed if it is an io.Closer (exception: http.ErrBodyReadAfterClose) and, in Read, only after its Read returned a non-nil error; a reader closed while consuming is removed before it is used again or the method returns; WriteTo and Close walk the whole list (counting loop 0..len-1, or consuming it from the head, or detach-then-walk) and leave each element copied (WriteTo) and closed-if-Closer; " +
 		"(V1-multi) Read returns the head's byte count unchanged and calls the next Read only when the previous count is known <= 0; (V6) Read returns io.EOF only when no reader remains. " +
 		"TeeReadCloser: (V5) Write receives exactly p[:n] of this read on every path with n>0 before Read returns, and Read reports the source's count (or the writer's on a write error); Close closes the source if it is a Closer. " +
-		"NOT decided: byte preservation for every chunking as a runtime fact; behaviour of the underlying readers/writers; that N is never modified elsewhere; stickiness of ErrStreamTooLarge on later Reads; concurrency of Multi/Limit; double user Close() calls."
+		"Verdicts: a VIOLATION is reported only when the whole entry point was understood (every same-package call followed, no unrecognised update/loop/expression, the object not handed to unmodelled code); otherwise the finding is UNDECIDED. " +
+		"NOT decided: byte preservation for every chunking as a runtime fact; behaviour of the underlying readers/writers; that the budget is never modified elsewhere; stickiness of ErrStreamTooLarge on later Reads; concurrency of Multi/Limit; double user Close() calls; recursion and calls through function values (UNDECIDED when a rule depends on them)."
 	r.Assumptions = append(r.Assumptions,
-		"underlying readers honour the io.Reader contract (0 <= n <= len(p)); io.CopyBuffer copies until EOF and returns nil at EOF",
-		"the over-limit state of limitReadCloser is exactly `N < 0 after the post-read update`; with the N+1 cap N never goes below -1",
-		"no deferred closure rewrites named results in the analysed methods (checked: none contains a deferred closure today)")
+		"underlying readers honour the io.Reader contract (0 <= n <= len(p)); io.Copy/io.CopyBuffer copy until EOF and return nil at EOF",
+		"the over-limit state of the limiting reader is exactly `budget < 0 after the post-read update`; with the N+1 cap the budget never goes below -1",
+		"helper functions are analysed as if inlined (context-sensitively, depth <= 5); a branch on a constant argument of a helper is resolved; other goroutines do not touch the wrappers during a call",
+		"a field load denotes the receiver's field (the wrappers never hold a second instance of their own type)")
 
 	r.Rule("C16.V1-count", "limitReadCloser.Read charges the source's byte count against N unconditionally; within the limit count and error pass through unchanged", 2)
 	r.Rule("C16.V2-cap", "limitReadCloser.Read hands the source a buffer of at most N+1 bytes", 1)
@@ -46,68 +48,77 @@ func checkC16(c *Ctx) {
 	c16Tee(c)
 }
 
-// c16Field resolves a field of a named struct; UNDECIDED if it is gone.
-func c16Field(n *types.Named, name string) FieldID {
-	st, ok := n.Underlying().(*types.Struct)
-	if !ok {
-		undecided("anchor type %s is no longer a struct", n.Obj().Name())
+// c16Viol records a violation, or UNDECIDED when the inlined view of the entry
+// point is incomplete (a call could not be followed: the missing construct
+// may live there).
+func c16Viol(r *Report, g *c16G, rule, construct, pos, msg string) {
+	switch {
+	case len(g.Unfollowed) > 0:
+		r.Undecide("%s %s: %s — but not every call could be followed%s", rule, construct, msg, c16Desc(g))
+	case g.Esc != "":
+		r.Undecide("%s %s: %s — but the stream is handed to %s, which is not modelled", rule, construct, msg, g.Esc)
+	case len(g.Unknown) > 0:
+		r.Undecide("%s %s: %s — but parts of the function were not understood (%s)", rule, construct, msg, g.Unknown[0])
+	default:
+		r.Violation(rule, construct, pos, msg)
 	}
-	for i := 0; i < st.NumFields(); i++ {
-		if st.Field(i).Name() == name {
-			return FieldID{Type: n.Obj().Pkg().Path() + "." + n.Obj().Name(), Field: name}
-		}
-	}
-	undecided("anchor field %s.%s no longer resolves", n.Obj().Name(), name)
-	return FieldID{}
 }
 
-// c16SourceRead finds the calls of Read on the value loaded from field f.
-func c16CallsOnField(fn *ssa.Function, method string, f FieldID) []*ssa.Call {
-	var out []*ssa.Call
-	allInstrs(fn, func(in ssa.Instruction) {
-		if ci, ok := c16InvokeOn(in, method, func(v ssa.Value) bool { return c16IsFieldLoad(v, f) }); ok {
-			if call, ok := ci.(*ssa.Call); ok {
-				out = append(out, call)
-			}
-		}
-	})
-	return out
+// c16Absent reports that a required construct was not found. That is a
+// violation only if the whole entry point was understood: every call followed,
+// no unrecognised shape, and the object in question not handed to code the
+// analysis does not see (escape != "").
+func c16Absent(r *Report, g *c16G, escape, rule, construct, pos, msg string) {
+	switch {
+	case escape != "":
+		r.Undecide("%s %s: %s — but the object is handed to %s, which is not modelled", rule, construct, msg, escape)
+	case len(g.Unknown) > 0:
+		r.Undecide("%s %s: %s — but parts of the function were not understood (%s)", rule, construct, msg, g.Unknown[0])
+	default:
+		c16Viol(r, g, rule, construct, pos, msg)
+	}
 }
 
-// boolean field condition on an edge: returns (truth, ok)
-func c16BoolFieldEdge(from, to *ssa.BasicBlock, f FieldID) (bool, bool) {
-	dc, ok := c16EdgeCond(from, to)
-	if !ok {
-		return false, false
+func c16Check(r *Report, g *c16G, cond bool, rule, construct, pos, okMsg, badMsg string) bool {
+	if cond {
+		r.OK(rule, construct, pos, okMsg)
+		return true
 	}
-	cond, branch := dc.If.Cond, dc.Branch
-	for {
-		if u, ok := cond.(*ssa.UnOp); ok && u.Op == token.NOT {
-			cond, branch = u.X, !branch
-			continue
-		}
-		break
+	c16Viol(r, g, rule, construct, pos, badMsg)
+	return false
+}
+
+func c16PosOr(a, b token.Pos) token.Pos {
+	if a.IsValid() {
+		return a
 	}
-	if c16IsFieldLoad(cond, f) {
-		return branch, true
-	}
-	if bo, ok := cond.(*ssa.BinOp); ok && (bo.Op == token.EQL || bo.Op == token.NEQ) {
-		x, y := bo.X, bo.Y
-		if !c16IsFieldLoad(x, f) {
-			x, y = y, x
-		}
-		if k, ok := y.(*ssa.Const); ok && c16IsFieldLoad(x, f) && k.Value != nil {
-			kv := k.Value.String() == "true"
-			if bo.Op == token.NEQ {
-				kv = !kv
+	return b
+}
+
+// c16LimitType resolves the concrete type behind the exported constructor
+// LimitReadCloser (role: "what LimitReadCloser returns"), whatever its name.
+func c16LimitType(p *Prog) *types.Named {
+	ctor := p.Func("streams", "LimitReadCloser")
+	var found *types.Named
+	g := c16Build(p, ctor)
+	for _, rl := range g.ExitLeaves(0) {
+		for _, lf := range rl.Leaves {
+			if mi, ok := lf.Val.V.(*ssa.MakeInterface); ok {
+				if n, ok := deref(mi.X.Type()).(*types.Named); ok {
+					if _, isStruct := n.Underlying().(*types.Struct); isStruct {
+						if found != nil && found != n {
+							undecided("LimitReadCloser returns more than one concrete type")
+						}
+						found = n
+					}
+				}
 			}
-			if !branch {
-				kv = !kv
-			}
-			return kv, true
 		}
 	}
-	return false, false
+	if found == nil {
+		undecided("cannot resolve the concrete type returned by streams.LimitReadCloser")
+	}
+	return found
 }
 
 // ---------------------------------------------------------------- limit
@@ -115,95 +126,199 @@ func c16BoolFieldEdge(from, to *ssa.BasicBlock, f FieldID) (bool, bool) {
 func c16Limit(c *Ctx) {
 	r, p := c.R, c.P
 	pkg := p.ModPath + "/streams"
-	named := p.Named("streams", "limitReadCloser")
-	fN, fR, fClosed := c16Field(named, "N"), c16Field(named, "R"), c16Field(named, "closed")
-	read := p.Func("streams", "limitReadCloser.Read")
-	closeFn := p.Func("streams", "limitReadCloser.Close")
-	rname := FuncName(p, read)
+	named := c16LimitType(p)
+	fR := c16FieldByType(named, "source stream", "R", func(t types.Type) bool {
+		return c16IsIface(t) && c16HasMethod(t, "Read") && c16HasMethod(t, "Close")
+	})
+	fN := c16FieldByType(named, "remaining byte budget", "N", func(t types.Type) bool {
+		b, ok := t.Underlying().(*types.Basic)
+		return ok && b.Info()&types.IsInteger != 0
+	})
+	fClosed := c16FieldByType(named, "closed flag", "closed", func(t types.Type) bool {
+		b, ok := t.Underlying().(*types.Basic)
+		return ok && b.Kind() == types.Bool
+	})
+	read := c16Method(p, named, "Read")
+	closeFn := c16Method(p, named, "Close")
+	if read == nil || closeFn == nil {
+		undecided("the type returned by LimitReadCloser has no Read/Close method body")
+	}
+	const rname = "streams.LimitReadCloser.Read"
+	g := c16Build(p, read)
+	g.Esc = g.Escapes(fR, false)
+	isR := func(v c16V) bool { return g.IsFieldLoad(v, fR) }
 
-	srcs := c16CallsOnField(read, "Read", fR)
+	var srcs []c16N
+	g.All(func(n c16N, b *c16B) {
+		if _, isCall := n.In.(*ssa.Call); isCall && g.MethodCall(n, "Read", isR) {
+			srcs = append(srcs, n)
+		}
+	})
 	if len(srcs) == 0 {
-		r.Violation("C16.V2-cap", rname+" source read", p.Pos(read.Pos()), "limitReadCloser.Read no longer reads from l.R: nothing is delivered")
+		c16Absent(r, g, g.Escapes(fR, false), "C16.V2-cap", rname+" source read", p.Pos(read.Pos()), "Read no longer reads from the source stream: nothing is delivered")
 		return
 	}
 	if len(srcs) > 1 {
-		r.Undecide("limitReadCloser.Read reads the source at %d call sites; the C16 rules are written for one", len(srcs))
+		r.Undecide("LimitReadCloser's Read reads the source at %d call sites; the C16 rules are written for one", len(srcs))
 		return
 	}
 	src := srcs[0]
-	cnt, e := callResult(src, 0), callResult(src, 1)
-	if cnt == nil || e == nil {
-		r.Violation("C16.V1-count", rname+" N -= count", p.Pos(src.Pos()), "the byte count or the error of l.R.Read is discarded")
+	srcB := g.where[src]
+	cnt, e := g.Result(src, 0), g.Result(src, 1)
+	if cnt.V == nil || e.V == nil {
+		c16Viol(r, g, "C16.V1-count", rname+" N -= count", p.Pos(g.Pos(src)), "the byte count or the error of the source's Read is discarded")
 		return
 	}
 	if len(read.Params) < 2 {
-		undecided("limitReadCloser.Read has no buffer parameter")
+		undecided("Read has no buffer parameter")
 	}
-	buf := read.Params[1]
+	buf := c16V{read.Params[1], nil}
+	cntR, eR := g.Val(cnt), g.Val(e)
 
 	// stores to N after the read
-	var storesN []*ssa.Store
-	allInstrs(read, func(in ssa.Instruction) {
-		if st := c16FieldStore(in, fN); st != nil && instrDominates(src, st) {
-			storesN = append(storesN, st)
+	var storesN []c16N
+	g.All(func(n c16N, b *c16B) {
+		if c16FieldStore(n.In, fN) != nil && g.NDominates(src, n) {
+			storesN = append(storesN, n)
 		}
 	})
-	afterStore := func(in ssa.Instruction) bool {
-		for _, st := range storesN {
-			if instrDominates(st, in) {
-				return true
-			}
-		}
-		return false
-	}
-	base := func(v ssa.Value) string {
-		if v == cnt {
+	storeVal := func(n c16N) c16V { return g.Val(c16V{n.In.(*ssa.Store).Val, n.Ctx}) }
+	base := func(v c16V) string {
+		if v == cntR {
 			return "cnt"
 		}
-		if call, ok := v.(*ssa.Call); ok && builtinName(call) == "len" && len(call.Call.Args) == 1 && call.Call.Args[0] == buf {
+		if call, ok := v.V.(*ssa.Call); ok && builtinName(call) == "len" && len(call.Call.Args) == 1 && g.Val(c16V{call.Call.Args[0], v.Ctx}) == buf {
 			return "len"
 		}
 		for _, st := range storesN {
-			if st.Val == v {
+			if storeVal(st) == v {
 				return "postN"
 			}
 		}
-		if c16IsFieldLoad(v, fN) {
-			if in, ok := v.(ssa.Instruction); ok && afterStore(in) {
-				return "postN"
-			}
-			if in, ok := v.(ssa.Instruction); ok && instrDominates(src, in) {
-				return "midN" // after the read but before the update
+		if c16IsFieldLoad(v.V, fN) {
+			if in, ok := v.V.(ssa.Instruction); ok {
+				n := c16N{In: in, Ctx: v.Ctx}
+				for _, st := range storesN {
+					if g.NDominates(st, n) {
+						return "postN"
+					}
+				}
+				if g.NDominates(src, n) {
+					return "midN"
+				}
 			}
 			return "N"
 		}
 		return ""
 	}
+	isCharge := func(n c16N) bool {
+		if c16FieldStore(n.In, fN) == nil {
+			return false
+		}
+		bo, ok := storeVal(n).V.(*ssa.BinOp)
+		return ok && bo.Op == token.SUB && g.Val(c16V{bo.Y, storeVal(n).Ctx}) == cntR && g.IsFieldLoad(c16V{bo.X, storeVal(n).Ctx}, fN)
+	}
 
-	// V1-count: N = N - count, unconditionally after the read
+	// one collecting flow for Read: charging, limit side, close discipline
+	const (
+		bRead = 1 << iota
+		bCharged
+		bOver
+		bSrcClosed
+		bKnownOpen
+		bSetTrue
+		bCalled
+	)
+	isCloseOnR := func(gg *c16G) func(n c16N) bool {
+		return func(n c16N) bool {
+			return gg.MethodCall(n, "Close", func(v c16V) bool { return gg.IsFieldLoad(v, fR) })
+		}
+	}
+	mkFlow := func(gg *c16G, bs func(c16V) string, srcN *c16N) *c16Flow {
+		closeOn := isCloseOnR(gg)
+		ff := &c16Flow{G: gg, Entry: 0,
+			Transfer: func(n c16N, s uint32) uint32 {
+				if srcN != nil && n == *srcN {
+					return (s | bRead) &^ bCharged
+				}
+				if srcN != nil && isCharge(n) {
+					s |= bCharged
+				}
+				if st := c16FieldStore(n.In, fClosed); st != nil {
+					if k, ok := gg.Res(c16V{st.Val, n.Ctx}).V.(*ssa.Const); ok && k.Value != nil && k.Value.String() == "true" {
+						return s | bSetTrue
+					}
+					return s &^ bSetTrue
+				}
+				if closeOn(n) {
+					return (s | bSrcClosed | bCalled) &^ bKnownOpen
+				}
+				return s
+			},
+			Edge: func(conds []c16C, s uint32) (uint32, bool) {
+				for _, c := range conds {
+					if cv, truth := gg.BoolCond(c); gg.IsFieldLoad(cv, fClosed) {
+						if truth {
+							if s&bSetTrue == 0 {
+								s |= bSrcClosed
+							}
+							s &^= bKnownOpen
+							continue
+						}
+						if s&bSetTrue != 0 {
+							return s, false // infeasible: the flag was just set on this path
+						}
+						s |= bKnownOpen
+						continue
+					}
+					if bs != nil {
+						for _, rel := range gg.Rels([]c16C{c}, bs) {
+							if rel.X == "postN" && rel.Y == "" {
+								if rel.impliesLE(-1) {
+									s |= bOver
+								} else if rel.impliesGE(0) {
+									s &^= bOver
+								}
+							}
+							if rel.X == "cnt" && rel.Y == "" && rel.impliesLE(0) {
+								s |= bCharged // nothing to charge
+							}
+						}
+					}
+				}
+				return s, true
+			}}
+		ff.Run()
+		return ff
+	}
+	ff := mkFlow(g, base, &src)
+
+	// V1-count
 	{
-		construct := rname + " N -= count"
-		ok, why := false, "no store `l.N = l.N - int64(n)` of the source's byte count after l.R.Read: bytes are not charged against the limit"
-		for _, st := range storesN {
-			bo, isBin := c16Unconv(st.Val).(*ssa.BinOp)
-			if !isBin || bo.Op != token.SUB || c16Unconv(bo.Y) != cnt || !c16IsFieldLoad(bo.X, fN) {
-				continue
+		bad := token.NoPos
+		ff.AtExits(func(exit *c16B, ret c16N, st map[uint32]bool) {
+			if c16AnyState(st, func(s uint32) bool { return s&bRead != 0 && s&bCharged == 0 }) {
+				bad = g.Pos(ret)
 			}
-			cond := false
-			for _, dc := range domConds(st.Block()) {
-				if instrDominates(src, dc.If) {
-					cond = true
+		})
+		nCharge := 0
+		for _, st := range storesN {
+			if isCharge(st) {
+				nCharge++
+			}
+		}
+		why := "Read can return after the source read without `N = N - count` having been executed on that path (the update is missing or control-dependent, e.g. on err): bytes returned together with an error/EOF are not charged against the limit"
+		if nCharge == 0 {
+			why = "no store `N = N - int64(n)` of the source's byte count after the source read: bytes are not charged against the limit"
+			for _, st := range storesN {
+				if g.Mentions(c16V{st.In.(*ssa.Store).Val, st.Ctx}, cntR, 0) {
+					g.Unk(r, "C16.V1-count: N is updated from the source's count in a form the rule does not recognise at %s", p.Pos(g.Pos(st)))
 				}
 			}
-			if cond {
-				why = "the update of N is control-dependent on a test made after the read (e.g. on err): bytes returned together with an error/EOF are not charged against the limit"
-				continue
-			}
-			ok = true
+			c16Absent(r, g, g.Escapes(fN, false), "C16.V1-count", rname+" N -= count", p.Pos(g.Pos(src)), why)
+			return
 		}
-		pos := src.Pos()
-		r.Check(ok, "C16.V1-count", construct, p.Pos(pos), "N is decreased by the source's count in a block not conditioned on the error", why)
-		if !ok {
+		if !c16Check(r, g, nCharge > 0 && !bad.IsValid(), "C16.V1-count", rname+" N -= count", p.Pos(c16PosOr(bad, g.Pos(src))), "on every path from the source read to a return N was decreased by the source's count (or the count is known <= 0)", why) {
 			return
 		}
 	}
@@ -211,20 +326,20 @@ func c16Limit(c *Ctx) {
 	// V2-cap
 	{
 		construct := rname + " buffer cap N+1"
-		why := ""
-		args := c16CallArgs(src)
+		why, unknownShape := "", ""
+		args := g.CallArgs(src)
 		if len(args) != 1 {
-			undecided("l.R.Read call has %d args", len(args))
+			undecided("source Read call has %d args", len(args))
 		}
-		for _, lf := range c16Leaves(args[0]) {
-			switch v := lf.Val.(type) {
+		for _, lf := range g.Leaves(args[0]) {
+			switch v := lf.Val.V.(type) {
 			case *ssa.Parameter:
-				if v != buf {
-					why = "the source reads into something other than the caller's buffer"
+				if lf.Val != buf {
+					unknownShape = "the source reads into something other than the caller's buffer"
 					continue
 				}
 				good := false
-				for _, rel := range c16Rels(lf.Conds, base) {
+				for _, rel := range g.Rels(lf.Conds, base) {
 					if rel.X == "len" && rel.Y == "N" && rel.impliesLE(1) {
 						good = true
 					}
@@ -233,76 +348,94 @@ func c16Limit(c *Ctx) {
 					}
 				}
 				if !good {
-					why = "the caller's buffer reaches l.R.Read uncapped on a path where len(p) <= N+1 is not established: more than N bytes can be delivered before the limit is noticed"
+					why = "the caller's buffer reaches the source's Read uncapped on a path where len(p) <= N+1 is not established: more than N bytes can be delivered before the limit is noticed"
 				}
 			case *ssa.Slice:
-				rootOK := false
-				for _, l2 := range c16Leaves(v.X) {
-					if l2.Val == buf {
-						rootOK = true
+				rootOK := true
+				for _, l2 := range g.Leaves(c16V{v.X, lf.Val.Ctx}) {
+					if l2.Val != buf {
+						rootOK = false
 					}
 				}
 				lowOK := v.Low == nil
-				if k, ok := c16IntConst(v.Low); v.Low != nil && ok && k == 0 {
-					lowOK = true
+				if v.Low != nil {
+					if k, ok := g.IntConst(c16V{v.Low, lf.Val.Ctx}); ok && k == 0 {
+						lowOK = true
+					}
 				}
 				b, off, ok := "", int64(0), false
 				if v.High != nil {
-					b, off, ok = c16Lin(v.High, base)
-					if call, isCall := c16Unconv(v.High).(*ssa.Call); isCall && builtinName(call) == "min" {
+					hv := g.Res(c16V{v.High, lf.Val.Ctx})
+					b, off, ok = g.Lin(hv, base)
+					if call, isCall := hv.V.(*ssa.Call); isCall && builtinName(call) == "min" {
 						ok = false
+						nOther := 0
 						for _, a := range call.Call.Args {
-							if ab, ao, aok := c16Lin(a, base); aok && ab == "N" && ao == 1 {
+							ab, ao, aok := g.Lin(c16V{a, hv.Ctx}, base)
+							switch {
+							case aok && ab == "N" && ao == 1:
 								b, off, ok = ab, ao, true
+							case aok && ab == "len" && ao == 0:
+							default:
+								nOther++
 							}
+						}
+						if nOther > 0 {
+							ok = false
 						}
 					}
 				}
 				if !rootOK || !lowOK {
-					why = "the buffer handed to the source is not a prefix p[0:…] of the caller's buffer"
-				} else if !ok || b != "N" || off != 1 {
+					unknownShape = "the buffer handed to the source is not a prefix p[0:…] of the caller's buffer"
+				} else if !ok {
+					unknownShape = "the bound of the buffer handed to the source is not an expression over N the rule can evaluate"
+				} else if b != "N" || off != 1 {
 					why = "the buffer handed to the source is capped at something other than N+1 (cap N reads nothing at N==0 and never sees the look-ahead byte; cap > N+1 delivers more than N bytes)"
 				}
 			default:
-				why = "the buffer handed to the source is not derived from the caller's buffer in a recognised way"
+				unknownShape = "the buffer handed to the source is not derived from the caller's buffer in a recognised way"
 			}
 		}
-		r.Check(why == "", "C16.V2-cap", construct, p.Pos(src.Pos()), "every buffer reaching l.R.Read is p with len(p)<=N+1 known, or p[0:N+1]", why)
+		if why == "" && unknownShape != "" {
+			g.Unk(r, "C16.V2-cap: %s", unknownShape)
+		} else {
+			c16Check(r, g, why == "", "C16.V2-cap", construct, p.Pos(g.Pos(src)), "every buffer reaching the source's Read is p with len(p)<=N+1 known, or p[0:N+1]", why)
+		}
 	}
 
-	// return leaves
-	post := reachableFrom(src.Block(), nil)
+	// over / within sides
 	anyOverTest := false
-	overReach, withinReach := map[*ssa.BasicBlock]bool{}, map[*ssa.BasicBlock]bool{}
-	allInstrs(read, func(in ssa.Instruction) {
-		if ifi, ok := in.(*ssa.If); ok {
-			for _, br := range []bool{true, false} {
-				tgt := ifi.Block().Succs[0]
-				if !br {
-					tgt = ifi.Block().Succs[1]
+	overReach, withinReach := map[*c16B]bool{}, map[*c16B]bool{}
+	for _, b := range g.Blocks {
+		for _, s := range b.Succs {
+			c, ok := g.EdgeCond(b, s)
+			if !ok {
+				continue
+			}
+			for _, rel := range g.Rels([]c16C{c}, base) {
+				if rel.X != "postN" || rel.Y != "" {
+					continue
 				}
-				for _, rel := range c16Rels([]DomCond{{ifi, br}}, base) {
-					if rel.X == "postN" && rel.Y == "" && rel.impliesLE(-1) {
-						anyOverTest = true
-						for b := range reachableFrom(tgt, nil) {
-							overReach[b] = true
-						}
+				if rel.impliesLE(-1) {
+					anyOverTest = true
+					for x := range g.Reach(s) {
+						overReach[x] = true
 					}
-					if rel.X == "postN" && rel.Y == "" && rel.impliesGE(0) {
-						for b := range reachableFrom(tgt, nil) {
-							withinReach[b] = true
-						}
+				}
+				if rel.impliesGE(0) {
+					for x := range g.Reach(s) {
+						withinReach[x] = true
 					}
 				}
 			}
 		}
-	})
+	}
 	if !anyOverTest {
-		r.Violation("C16.V2-err", rname+" over-limit error", p.Pos(src.Pos()), "after charging the read against N there is no test `N < 0`: a source longer than N is never turned into ErrStreamTooLarge")
+		c16Viol(r, g, "C16.V2-err", rname+" over-limit error", p.Pos(g.Pos(src)), "after charging the read against N there is no test `N < 0`: a source longer than N is never turned into ErrStreamTooLarge")
 		return
 	}
 	classify := func(lf c16Leaf) (over, within, unreachable bool) {
-		for _, rel := range c16Rels(lf.Conds, base) {
+		for _, rel := range g.Rels(lf.Conds, base) {
 			if rel.X != "postN" || rel.Y != "" {
 				continue
 			}
@@ -315,6 +448,9 @@ func c16Limit(c *Ctx) {
 			if rel.impliesLE(-2) || (rel.excludes(-1) && !rel.impliesGE(0)) {
 				unreachable = true // N < -1 cannot happen with the N+1 cap
 			}
+		}
+		if over && within {
+			return false, false, true // contradictory combination of origin and path
 		}
 		if over && unreachable {
 			return false, false, true
@@ -331,20 +467,23 @@ func c16Limit(c *Ctx) {
 	checkOver := func(idx int, lf c16Leaf, ret *ssa.Return) {
 		if idx == 0 {
 			hide.n++
-			b, off, ok := c16Lin(lf.Val, base)
-			if !(ok && b == "cnt" && off == -1) {
+			b, off, ok := g.Lin(lf.Val, base)
+			if _, isConst := lf.Val.V.(*ssa.Const); !ok && !isConst && g.Mentions(lf.Val, cntR, 0) {
+				unknown = "an over-limit return of Read reports a count computed from the source's count in a form the rule cannot evaluate at " + p.Pos(ret.Pos())
+			} else if !(ok && b == "cnt" && off == -1) {
 				hide.why = "an over-limit return reports a count that is not (source count - 1): the look-ahead byte N+1 is delivered to the consumer (more than N bytes)"
 				hide.pos = ret.Pos()
 			}
 			return
 		}
 		errv.n++
-		v := c16Unconv(lf.Val)
+		v := lf.Val
+		isTooLarge := func(a c16V) bool { return g.IsGlobalLoad(a, pkg, "ErrStreamTooLarge") }
 		switch {
-		case c16IsGlobalLoad(v, pkg, "ErrStreamTooLarge"):
-		case c16CallHasArg(v, func(a ssa.Value) bool { return c16IsGlobalLoad(a, pkg, "ErrStreamTooLarge") }):
-		case v == e:
-			f := c16FactsAbout(lf.Conds, append(append([]ssa.Value(nil), lf.Via...), e))
+		case isTooLarge(v):
+		case c16CallHasArg(v.V, func(a ssa.Value) bool { return isTooLarge(c16V{a, v.Ctx}) }):
+		case v == eR:
+			f := g.FactsAbout(lf.Conds, append(append([]c16V(nil), lf.Via...), e))
 			if !f.NotEOF {
 				errv.why = "on the over-limit branch the source's own error is returned without io.EOF having been excluded: a source that returns its bytes N+1.. together with io.EOF makes Read deliver N bytes and then a clean io.EOF — the over-long stream is mistaken for a complete one (silent truncation)"
 				errv.pos = ret.Pos()
@@ -352,30 +491,31 @@ func c16Limit(c *Ctx) {
 				errv.why = "on the over-limit branch a nil error can be returned: the over-long stream is not failed"
 				errv.pos = ret.Pos()
 			}
-		case isNilConst(v):
+		case g.IsNil(v):
 			errv.why = "an over-limit return has a nil error: the over-long stream is not failed with ErrStreamTooLarge"
 			errv.pos = ret.Pos()
-		case c16IsGlobalLoad(v, "io", "EOF"):
+		case g.IsGlobalLoad(v, "io", "EOF"):
 			errv.why = "an over-limit return yields io.EOF: the over-long stream is mistaken for a complete one"
 			errv.pos = ret.Pos()
 		default:
-			unknown = "over-limit return of limitReadCloser.Read yields an error value the rule cannot classify at " + p.Pos(ret.Pos())
+			unknown = "over-limit return of Read yields an error value the rule cannot classify at " + p.Pos(ret.Pos())
 		}
 	}
 	checkWithin := func(idx int, lf c16Leaf, ret *ssa.Return) {
 		pass.n++
-		if idx == 0 && c16Unconv(lf.Val) != cnt {
+		if idx == 0 && !g.IsCount(lf, cntR) {
 			pass.why = "within the limit Read reports a count different from what the source returned: bytes are lost or invented"
 			pass.pos = ret.Pos()
 		}
-		if idx == 1 && c16Unconv(lf.Val) != e {
+		if idx == 1 && lf.Val != eR {
 			pass.why = "within the limit Read replaces the source's error/EOF: a stream of at most N bytes is not yielded unchanged"
 			pass.pos = ret.Pos()
 		}
 	}
+	post := g.Reach(srcB)
 	for idx := 0; idx < 2; idx++ {
-		for _, rl := range c16ReturnLeaves(read, idx) {
-			if !post[rl.Ret.Block()] || !src.Block().Dominates(rl.Ret.Block()) {
+		for _, rl := range g.ExitLeaves(idx) {
+			if !post[rl.Exit] || !g.Dominates(srcB, rl.Exit) {
 				continue
 			}
 			for _, lf := range rl.Leaves {
@@ -384,18 +524,39 @@ func c16Limit(c *Ctx) {
 					continue
 				}
 				if !over && !within {
-					// the value does not depend on which side of the test was taken: it is
-					// what the return yields on every side that can reach it
-					if overReach[rl.Ret.Block()] {
+					// a return before the budget is touched, on a path where nothing was read
+					// (count known <= 0): the budget is what the entry guard saw (>= 0)
+					retN := rl.Exit.Ns[len(rl.Exit.Ns)-1]
+					beforeStore := true
+					for _, st := range storesN {
+						if g.Reach(g.where[st])[rl.Exit] {
+							beforeStore = false
+						}
+					}
+					_ = retN
+					if beforeStore {
+						zero := false
+						for _, rel := range g.Rels(lf.Conds, base) {
+							if rel.X == "cnt" && rel.Y == "" && rel.impliesLE(0) {
+								zero = true
+							}
+						}
+						if zero {
+							checkWithin(idx, lf, rl.Ret)
+							continue
+						}
+					}
+					// the value does not depend on which side of the test was taken
+					if overReach[rl.Exit] {
 						checkOver(idx, lf, rl.Ret)
 						over = true
 					}
-					if withinReach[rl.Ret.Block()] {
+					if withinReach[rl.Exit] {
 						checkWithin(idx, lf, rl.Ret)
 						within = true
 					}
 					if !over && !within {
-						unknown = "a return of limitReadCloser.Read after the source read is neither on the `N<0` nor on the `N>=0` side at " + p.Pos(rl.Ret.Pos())
+						unknown = "a return of Read after the source read is neither on the `N<0` nor on the `N>=0` side at " + p.Pos(rl.Ret.Pos())
 					}
 					continue
 				}
@@ -408,18 +569,14 @@ func c16Limit(c *Ctx) {
 		}
 	}
 	if unknown != "" {
-		r.Undecide("%s", unknown)
+		g.Unk(r, "%s", unknown)
 	}
 	fin := func(v *verdict, rule, construct, okMsg, missing string) {
 		if v.n == 0 {
-			r.Violation(rule, construct, p.Pos(src.Pos()), missing)
+			c16Viol(r, g, rule, construct, p.Pos(g.Pos(src)), missing)
 			return
 		}
-		pos := src.Pos()
-		if v.pos.IsValid() {
-			pos = v.pos
-		}
-		r.Check(v.why == "", rule, construct, p.Pos(pos), okMsg, v.why)
+		c16Check(r, g, v.why == "", rule, construct, p.Pos(c16PosOr(v.pos, g.Pos(src))), okMsg, v.why)
 	}
 	fin(hide, "C16.V2-hide", rname+" over-limit count", "every over-limit return reports count-1", "no return on the over-limit branch")
 	fin(errv, "C16.V2-err", rname+" over-limit error", "every over-limit return yields ErrStreamTooLarge or a source error proven non-EOF and non-nil", "no return on the over-limit branch: over-long streams are not failed")
@@ -428,27 +585,27 @@ func c16Limit(c *Ctx) {
 	// V2-pre: returns before the source read
 	{
 		why, wpos, n := "", token.NoPos, 0
-		for _, rl := range c16ReturnLeaves(read, 1) {
-			if post[rl.Ret.Block()] {
+		for _, rl := range g.ExitLeaves(1) {
+			if post[rl.Exit] {
 				continue
 			}
 			for _, lf := range rl.Leaves {
-				tooLarge := c16IsGlobalLoad(lf.Val, pkg, "ErrStreamTooLarge")
-				eof := c16IsGlobalLoad(lf.Val, "io", "EOF")
+				tooLarge := g.IsGlobalLoad(lf.Val, pkg, "ErrStreamTooLarge")
+				eof := g.IsGlobalLoad(lf.Val, "io", "EOF")
 				if !tooLarge && !eof {
 					continue
 				}
 				n++
 				ok := false
 				if tooLarge {
-					for _, rel := range c16Rels(lf.Conds, base) {
+					for _, rel := range g.Rels(lf.Conds, base) {
 						if rel.X == "N" && rel.Y == "" && rel.impliesLE(-1) {
 							ok = true
 						}
 					}
-					for _, dc := range lf.Conds {
-						if cmp, isCmp := decodeCond(dc.If.Cond, dc.Branch); isCmp && cmp.Op == token.EQL {
-							if (c16IsFieldLoad(cmp.X, fR) && isNilConst(cmp.Y)) || (c16IsFieldLoad(cmp.Y, fR) && isNilConst(cmp.X)) {
+					for _, c := range lf.Conds {
+						if cmp, isCmp := g.Cmp(c); isCmp && cmp.Op == token.EQL {
+							if (g.IsFieldLoad(cmp.X, fR) && g.IsNil(cmp.Y)) || (g.IsFieldLoad(cmp.Y, fR) && g.IsNil(cmp.X)) {
 								ok = true
 							}
 						}
@@ -458,160 +615,77 @@ func c16Limit(c *Ctx) {
 						wpos = rl.Ret.Pos()
 					}
 				} else {
-					for _, dc := range lf.Conds {
-						cond, br := dc.If.Cond, dc.Branch
-						for {
-							if u, isNot := cond.(*ssa.UnOp); isNot && u.Op == token.NOT {
-								cond, br = u.X, !br
-								continue
-							}
-							break
-						}
-						if c16IsFieldLoad(cond, fClosed) && br {
+					for _, c := range lf.Conds {
+						if cv, truth := g.BoolCond(c); truth && g.IsFieldLoad(cv, fClosed) {
 							ok = true
 						}
 					}
 					if !ok {
-						why = "Read returns io.EOF before reading the source on a path where closed is not known true: the stream is cut short"
+						why = "Read returns io.EOF before reading the source on a path where the closed flag is not known true: the stream is cut short"
 						wpos = rl.Ret.Pos()
 					}
 				}
 			}
 		}
 		if n > 0 {
-			r.Check(why == "", "C16.V2-pre", rname+" early returns", p.Pos(c16PosOr(wpos, read.Pos())), "before the read, ErrStreamTooLarge is returned only under N<0 (or R==nil) and io.EOF only under closed", why)
+			c16Check(r, g, why == "", "C16.V2-pre", rname+" early returns", p.Pos(c16PosOr(wpos, read.Pos())), "before the read, ErrStreamTooLarge is returned only under N<0 (or R==nil) and io.EOF only under closed", why)
 		} else {
 			r.Trivial("C16.V2-pre", rname+" early returns", p.Pos(read.Pos()), "no early ErrStreamTooLarge/EOF return")
 		}
 	}
 
-	// V2-close, V4-once: powerset flow
-	const (
-		bOver = 1 << iota
-		bSrcClosed
-		bKnownOpen
-		bSetTrue
-		bCalled
-	)
-	isCloseOnR := func(in ssa.Instruction) bool {
-		_, ok := c16InvokeOn(in, "Close", func(v ssa.Value) bool { return c16IsFieldLoad(v, fR) })
-		if _, isDefer := in.(*ssa.Defer); isDefer {
-			return ok
-		}
-		_, isCall := in.(*ssa.Call)
-		return ok && isCall
+	// V2-close, V4-once
+	type fnGraph struct {
+		name string
+		g    *c16G
+		ff   *c16Flow
 	}
-	mkFlow := func(fn *ssa.Function) *FlagFlow {
-		ff := &FlagFlow{Fn: fn, Must: false, Entry: 1 << 0,
-			Transfer: func(in ssa.Instruction, st uint64) uint64 {
-				if s := c16FieldStore(in, fClosed); s != nil {
-					if k, ok := s.Val.(*ssa.Const); ok && k.Value != nil && k.Value.String() == "true" {
-						return mapStates(st, func(x int) int { return x | bSetTrue })
-					}
-					return mapStates(st, func(x int) int { return x &^ bSetTrue })
-				}
-				if isCloseOnR(in) {
-					return mapStates(st, func(x int) int { return (x | bSrcClosed | bCalled) &^ bKnownOpen })
-				}
-				return st
-			},
-			EdgeTransfer: func(from, to *ssa.BasicBlock, st uint64) uint64 {
-				if truth, ok := c16BoolFieldEdge(from, to, fClosed); ok {
-					var out uint64
-					for i := 0; i < 64; i++ {
-						if st&(1<<uint(i)) == 0 {
-							continue
-						}
-						x := i
-						if truth {
-							if x&bSetTrue == 0 {
-								x |= bSrcClosed
-							}
-							x &^= bKnownOpen
-						} else {
-							if x&bSetTrue != 0 {
-								continue // infeasible: flag was just set on this path
-							}
-							x |= bKnownOpen
-						}
-						out |= 1 << uint(x)
-					}
-					return out
-				}
-				if dc, ok := c16EdgeCond(from, to); ok {
-					for _, rel := range c16Rels([]DomCond{dc}, base) {
-						if rel.X == "postN" && rel.Y == "" {
-							if rel.impliesLE(-1) {
-								return mapStates(st, func(x int) int { return x | bOver })
-							}
-							if rel.impliesGE(0) {
-								return mapStates(st, func(x int) int { return x &^ bOver })
-							}
-						}
-					}
-				}
-				return st
-			}}
-		ff.Run()
-		return ff
-	}
-	anyState := func(st uint64, pred func(x int) bool) bool {
-		for i := 0; i < 64; i++ {
-			if st&(1<<uint(i)) != 0 && pred(i) {
-				return true
-			}
-		}
-		return false
-	}
-	for _, fn := range []*ssa.Function{read, closeFn} {
-		fname := FuncName(p, fn)
-		ff := mkFlow(fn)
+	gc := c16Build(p, closeFn)
+	gc.Esc = gc.Escapes(fR, false)
+	for _, fg := range []fnGraph{{rname, g, ff}, {"streams.LimitReadCloser.Close", gc, mkFlow(gc, nil, nil)}} {
+		gg, fl := fg.g, fg.ff
+		closeOn := isCloseOnR(gg)
 		nCalls := 0
-		allInstrs(fn, func(in ssa.Instruction) {
-			if _, isDefer := in.(*ssa.Defer); isDefer || !isCloseOnR(in) {
+		unguarded := token.NoPos
+		gg.All(func(n c16N, b *c16B) {
+			if !closeOn(n) || !fl.Reached(n) {
 				return
 			}
 			nCalls++
-			st, reach := ff.Before(in)
-			if !reach {
-				return
-			}
-			r.Check(!anyState(st, func(x int) bool { return x&bKnownOpen == 0 }), "C16.V4-once", fname+" l.R.Close() guarded by !closed", p.Pos(instrPos(in)),
-				"the source is closed only where closed was tested false on every path", "l.R.Close() is reachable without a `closed == false` test on the path (or after a previous Close on the same path): the source can be closed twice (over-limit Read then Close, or Close twice)")
-		})
-		flagBad, overBad, closeBad := token.NoPos, token.NoPos, token.NoPos
-		nRet := 0
-		ff.AtReturns(func(ret *ssa.Return, st uint64) {
-			nRet++
-			if anyState(st, func(x int) bool { return x&bCalled != 0 && x&bSetTrue == 0 }) {
-				flagBad = ret.Pos()
-			}
-			if anyState(st, func(x int) bool { return x&bOver != 0 && x&bSrcClosed == 0 }) {
-				overBad = ret.Pos()
-			}
-			if anyState(st, func(x int) bool { return x&bSrcClosed == 0 }) {
-				closeBad = ret.Pos()
+			if fl.Any(n, func(s uint32) bool { return s&bKnownOpen == 0 }) {
+				unguarded = gg.Pos(n)
 			}
 		})
 		if nCalls > 0 {
-			r.Check(!flagBad.IsValid(), "C16.V4-once", fname+" sets closed when it closes the source", p.Pos(c16PosOr(flagBad, fn.Pos())),
+			c16Check(r, gg, !unguarded.IsValid(), "C16.V4-once", fg.name+" source Close guarded by !closed", p.Pos(c16PosOr(unguarded, gg.Root.Pos())),
+				"the source is closed only where closed was tested false on every path", "the source's Close() is reachable without a `closed == false` test on the path (or after a previous Close on the same path): the source can be closed twice (over-limit Read then Close, or Close twice)")
+		}
+		flagBad, overBad, closeBad := token.NoPos, token.NoPos, token.NoPos
+		nRet := 0
+		fl.AtExits(func(exit *c16B, ret c16N, st map[uint32]bool) {
+			nRet++
+			if c16AnyState(st, func(s uint32) bool { return s&bCalled != 0 && s&bSetTrue == 0 }) {
+				flagBad = gg.Pos(ret)
+			}
+			if c16AnyState(st, func(s uint32) bool { return s&bOver != 0 && s&bSrcClosed == 0 }) {
+				overBad = gg.Pos(ret)
+			}
+			if c16AnyState(st, func(s uint32) bool { return s&bSrcClosed == 0 }) {
+				closeBad = gg.Pos(ret)
+			}
+		})
+		if nCalls > 0 {
+			c16Check(r, gg, !flagBad.IsValid(), "C16.V4-once", fg.name+" sets closed when it closes the source", p.Pos(c16PosOr(flagBad, gg.Root.Pos())),
 				"every path that closes the source sets closed=true before returning", "a path closes the source and returns without closed=true: the next Close()/over-limit Read closes the source a second time")
 		}
-		if fn == read {
-			r.Check(!overBad.IsValid() && nRet > 0, "C16.V2-close", fname+" over-limit closes the source", p.Pos(c16PosOr(overBad, fn.Pos())),
-				"every over-limit return has called l.R.Close() or seen closed==true", "an over-limit return is reachable without the source having been closed (l.R.Close() dropped or made conditional)")
+		if gg == g {
+			c16Check(r, gg, !overBad.IsValid() && nRet > 0, "C16.V2-close", fg.name+" over-limit closes the source", p.Pos(c16PosOr(overBad, gg.Root.Pos())),
+				"every over-limit return has closed the source or seen closed==true", "an over-limit return is reachable without the source having been closed (Close() dropped or made conditional)")
 		} else {
-			r.Check(!closeBad.IsValid() && nRet > 0, "C16.V4-once", fname+" closes the source unless closed", p.Pos(c16PosOr(closeBad, fn.Pos())),
-				"every return of Close has called l.R.Close() or seen closed==true", "Close() can return without closing the source although closed was not set before: the source is never closed")
+			c16Check(r, gg, !closeBad.IsValid() && nRet > 0, "C16.V4-once", fg.name+" closes the source unless closed", p.Pos(c16PosOr(closeBad, gg.Root.Pos())),
+				"every return of Close has closed the source or seen closed==true", "Close() can return without closing the source although closed was not set before: the source is never closed")
 		}
 	}
-}
-
-func c16PosOr(a, b token.Pos) token.Pos {
-	if a.IsValid() {
-		return a
-	}
-	return b
 }
 
 // c16CallHasArg: v is a call one of whose arguments (also inside a variadic
